@@ -126,6 +126,27 @@ def r1(ctx):
                                                     "additions is later written to / read from the wrong bit" % side, loc, detail)
         else:
             ctx.ok(rule, side + "#bit_pos-order", detail)
+        # the presence range of the root components starts *after* the extension bit: its start must not be one of the
+        # positions captured before that bit is handled
+        O2 = X.Origins(body, P)
+        starts = []
+        for b2, j2, s2 in body.all_statements():
+            if s2["k"] == "assign" and s2["rv"]["k"] == "agg" and s2["rv"].get("ak") == "adt" and s2["rv"]["adt"].endswith("Range") \
+                    and len(s2["rv"]["ops"]) == 2:
+                end = F.rd(O2.operand(s2["rv"]["ops"][1], b2, j2))
+                if "STD_OPTIONAL_FIELDS" in end:
+                    starts.append((s2["rv"]["ops"][0], span_loc(s2["sp"])))
+        if not starts:
+            ctx.fail(rule, side + "#anchor-lost:presence-range", "the range of the root presence bits is not built", loc)
+        for op0, l0 in starts:
+            early_start = op0.get("k") in ("copy", "move") and op0["pl"]["l"] in flow
+            d2 = {"side": side, "range_built_at": l0, "extension_bit_call": ext.loc()}
+            if early_start:
+                ctx.fail(rule, side + "#range-start-order", "the %s starts the range of root presence bits at a position captured before the "
+                                                            "extension bit is handled: the first OPTIONAL/DEFAULT presence bit lands on "
+                                                            "the extension bit" % side, l0, d2)
+            else:
+                ctx.ok(rule, side + "#range-start-order", d2)
 
 
 def arm_writes(P, b, arm, O):
